@@ -530,11 +530,22 @@ class Scanner:
     @staticmethod
     def print_state_kind(call, mod, fn):
         """np.array2string & co read np.get_printoptions() for every layout option not given in the call.  ReadOnlyConstant
-        when max_line_width, threshold, edgeitems and legacy are all pinned (directly or through `**name` where `name` is
+        when max_line_width, threshold, edgeitems, legacy, sign and formatter are all pinned (directly or through `**name` where `name` is
         assigned a dict(...) / {...} literal with constant keys in the same function); LoggingOnly inside display-only
         code (__str__/__repr__/_repr_*, or a module called formatting.py); otherwise Unclassified."""
-        need = {"max_line_width", "threshold", "edgeitems", "legacy"}
+        need = {"max_line_width", "threshold", "edgeitems", "legacy", "sign", "formatter"}
         have = {k.arg for k in call.keywords if k.arg}
+        # ... or the call sits inside `with np.printoptions(<all layout options>)`
+        if fn is not None:
+            for w in ast.walk(fn):
+                if isinstance(w, ast.With) and any(n is call for b in w.body for n in ast.walk(b)):
+                    for it in w.items:
+                        c = it.context_expr
+                        if isinstance(c, ast.Call) and norm_q(mod.resolve(c.func)) == "numpy.printoptions":
+                            kws = {k.arg for k in c.keywords if k.arg}
+                            if {"linewidth", "threshold", "edgeitems", "legacy", "sign", "formatter", "precision", "suppress",
+                                    "floatmode", "nanstr", "infstr"} <= kws:
+                                return "ReadOnlyConstant"
         for k in call.keywords:
             if k.arg is None and isinstance(k.value, ast.Name) and fn is not None:
                 for st in ast.walk(fn):
